@@ -33,7 +33,7 @@ impl Check for C05 {
     }
     fn runs(&self, tier: Tier) -> u64 {
         match tier {
-            Tier::Quick => 150_000,
+            Tier::Quick => 400_000,
             Tier::Thorough => 50_000_000,
         }
     }
